@@ -109,6 +109,7 @@ class Ctx:
         shutil.rmtree(self.work, ignore_errors=True)
         os.makedirs(self.work)
         self.violations = []      # list of dict(signature, detail, replay)
+        self.sig_counts = {}
         self.known_hits = []      # list of (finding, detail)
         self.known = [f for f in load_known() if f.get("property") == pid]
         self.cov = {}
@@ -431,6 +432,7 @@ class Ctx:
                 json.dump({"property": self.pid, "seed": self.seed, "tier": self.tier, "signature": signature,
                            "detail": detail, "replay": replay}, fh, indent=1, default=str)
         self.violations.append({"signature": signature, "replay": rp})
+        self.sig_counts[signature] = self.sig_counts.get(signature, 0) + 1
         if len(self.violations) <= 20:
             print("VIOLATION property=%s replay=%s" % (self.pid, rp), flush=True)
             print("  signature: %s" % signature, flush=True)
@@ -468,6 +470,8 @@ class Ctx:
         os.makedirs(os.path.join(VERIF, "evidence"), exist_ok=True)
         with open(os.path.join(VERIF, "evidence", self.pid + ".json"), "w") as fh:
             json.dump(ev, fh, indent=1, default=str)
+        for sg, n in sorted(self.sig_counts.items()):
+            print("  violation-signature %s x%d" % (sg, n), flush=True)
         self.log("done: evaluations=%d nontrivial=%d traces=%d states=%d violations=%d known=%d wall=%.0fs" % (
             evaluations, distinct_nontrivial, self.traces_validated, self.tlc_states, len(self.violations),
             len(self.known_hits), time.time() - self.t0))
